@@ -33,10 +33,11 @@ const (
 )
 
 var (
-	eng        tsdb.Engine // ONE real engine per process; both nodes' partitions use its shard / family
-	familyTime int64
-	worldRoot  string
-	worldSeq   int
+	eng           tsdb.Engine // ONE real engine per process; both nodes' partitions use its shard / family
+	familyTime    int64
+	familyTimeOld int64 // a family that expired long ago (configurations with Expire)
+	worldRoot     string
+	worldSeq      int
 )
 
 // ---------------------------------------------------------------------------------------------
@@ -195,6 +196,7 @@ type world struct {
 	crash      string
 	canon      string
 	spent      bool
+	expireAns  *bool // answer of the terminal event L.expire
 	closed     bool
 }
 
@@ -217,6 +219,13 @@ func newWorld(cfg *bcfg) (*world, error) {
 	return w, nil
 }
 
+func (w *world) famTime() int64 {
+	if w.cfg.Expire {
+		return familyTimeOld
+	}
+	return familyTime
+}
+
 func (w *world) startLeader() error {
 	ctx, cancel := context.WithCancel(context.Background())
 	w.lcancel = cancel
@@ -228,7 +237,7 @@ func (w *world) startLeader() error {
 		return fmt.Errorf("leader recovery: %v", err)
 	}
 	// what the write handler does for the first write of a family
-	p, err := w.lmgr.GetOrCreateLog(dbName).GetOrCreatePartition(shardID, familyTime, leaderID)
+	p, err := w.lmgr.GetOrCreateLog(dbName).GetOrCreatePartition(shardID, w.famTime(), leaderID)
 	if err != nil {
 		return fmt.Errorf("leader partition: %v", err)
 	}
@@ -309,7 +318,7 @@ func (w *world) followerPartition() replica.Partition {
 	if _, err := os.Stat(filepath.Join(w.fdir, rel)); err != nil {
 		return nil
 	}
-	p, err := w.fmgr.GetOrCreateLog(dbName).GetOrCreatePartition(shardID, familyTime, leaderID)
+	p, err := w.fmgr.GetOrCreateLog(dbName).GetOrCreatePartition(shardID, w.famTime(), leaderID)
 	if err != nil {
 		return nil
 	}
@@ -330,7 +339,11 @@ func (w *world) Enabled() []string {
 	if !w.parked {
 		evs = append(evs, "step")
 	}
-	evs = append(evs, "L.gc")
+	if !w.cfg.Expire {
+		evs = append(evs, "L.gc")
+	} else if w.appends == len(w.cfg.Word) {
+		evs = append(evs, "L.expire")
+	}
 	if w.cfg.Local {
 		if li := replica.VerifReplicatorInfoOf(w.lpart, leaderID); li.Exists && li.Consumed < replica.VerifLog(w.lpart).Queue().AppendedSeq() {
 			evs = append(evs, "L.local")
@@ -520,6 +533,10 @@ func (w *world) Apply(ev string) (err error) {
 		if w.lpart.IsExpire() {
 			return fmt.Errorf("IsExpire answered true for the current family")
 		}
+	case ev == "L.expire":
+		ans := w.lpart.IsExpire()
+		w.expireAns = &ans
+		w.spent = true // terminal: the clean-up may have stopped replicators / is about to delete the log
 	case ev == "streamBreak":
 		w.spend(ev)
 		w.breakStreams()
